@@ -88,15 +88,7 @@ theorem node_stable_history_partial (limit : Nat) (a0 : Alloc) (ops1 ops2 : List
     (hd2 : NoDefect s1 ops2) (h2 : s1.run ops2 = .ok (sf, ts2))
     (i : Nat) (p : Ptr) (hi : i < s1.slots.length) (hg : sf.getNode i = some p) :
     s1.getNode i = some p ∧ treeOf sf.a p = treeOf s1.a p := by
-  have hI : Inv a0 ∧ HeapOk a0 := by
-    unfold newLimited at h0
-    split at h0
-    · cases h0
-    · cases h0
-      refine ⟨⟨Closed.nil _, ?_, ?_, ?_⟩, hl⟩
-      · show ([] : List (Nat × Nat)).length + Gen.initGhostAtoms ≤ Gen.maxNumAtoms; decide
-      · show ([] : List (Ptr × Ptr)).length + Gen.initGhostPairs ≤ Gen.maxNumPairs; decide
-      · show limit ≤ u32Max; omega
+  have hI := inv_newLimited limit a0 h0 hl
   have hS1 := run_sinv ops1 _ (SInv.init a0 hI.1 hI.2) hw1 hd1 s1 ts1 h1
   exact run_stable ops2 s1 hS1 hw2 hd2 sf ts2 h2 i p hi hg
 
